@@ -101,8 +101,7 @@ ArgsOf(c, r) == LET h == SideOf(c.a, c.b, c.n, c.L, c.R)
 Forms(c) == {"nested", "flat"} \cup (IF c.L = c.R THEN {"bool"} ELSE {})
 QUniform(c, r, form) ==
   [kind |-> "uniform", c |-> c, args |-> ArgsOf(c, r), form |-> form,
-   ans |-> <<UniformPartitionAxis(ArgsOf(c, r), c.L, c.R)>>,
-   known |-> KnownFlatCell(ArgsOf(c, r), form, c.L, c.R)]
+   ans |-> <<UniformPartitionAxis(ArgsOf(c, r), c.L, c.R)>>]
 
 (* ------------------------- the machine ----------------------------------- *)
 Init == /\ ph = "cfg" /\ q = NoQ
@@ -193,10 +192,9 @@ UniformLaws ==
       \* every route describes the same partition
       /\ q.ans[1] = UniformAxis(c.a, c.b, c.n, c.L, c.R)
       /\ AxisLaws(q.ans[1])
-      \* layer C: node placement and completion agree with the reference outside the known cell
+      \* layer C: node placement and completion agree with the reference for every route and spelling
       /\ ImplUniformGrid(c.a, c.b, c.n, c.L, c.R) = UniformNodes(c.a, c.b, c.n, c.L, c.R)
       /\ RefinesUniform(q.args, q.form, c.L, c.R)
-      /\ (q.known => ImplUniform(q.args, q.form, c.L, c.R) # q.ans[1])      \* the defect is real in the model
 QueryLaws ==
   ph = "query" =>
     CASE q.kind = "derived"  -> \A k \in 1..Len(part) : q.ans[k].extent = QSumSeq(q.ans[k].sizes)
